@@ -224,10 +224,20 @@ def perm_defect(pm, got, want):
         return f"entries {tuple(got)}, expected {tuple(want)}"
     if any(type(v) is not int for v in got):  # noqa: E721  (bool / float entries compare equal but are not a permutation)
         return f"entries are not ints: {tuple(got)!r}"
-    if repr(got) != f"Perm({tuple(want)!r})":
-        return f"repr is {repr(got)}"
-    if 0 < len(want) <= 10 and str(got) != "".join(str(v) for v in want):
-        return f"str is {str(got)!r}"
+    # the notations of the object must lead back to it (their exact spelling is not promised)
+    try:
+        back = eval(repr(got), {"Perm": pm.Perm})  # pylint: disable=eval-used
+    except Exception as exc:  # pylint: disable=broad-except
+        return f"repr {repr(got)!r} does not evaluate: {type(exc).__name__}"
+    if tuple(back) != tuple(want) or any(type(v) is not int for v in back):  # noqa: E721
+        return f"repr {repr(got)!r} evaluates to {tuple(back)!r}"
+    if 0 < len(want) <= 10:
+        try:
+            back = pm.Perm.from_string(str(got))
+        except Exception as exc:  # pylint: disable=broad-except
+            return f"str {str(got)!r} does not parse: {type(exc).__name__}"
+        if tuple(back) != tuple(want):
+            return f"str {str(got)!r} parses to {tuple(back)!r}"
     return None
 
 
